@@ -1,6 +1,7 @@
 package main
 
 import (
+	"math"
 	"github.com/nulab/autog"
 	ig "github.com/nulab/autog/internal/graph"
 )
@@ -17,6 +18,10 @@ type stageSnap struct {
 	pts         [][]int  // per edge: x1, y1, x2, y2, ... (1/64), from stage 5 on
 	layerH      []int
 	exact       bool
+	// stage 5 with spline routing and a monitor: the corridor of every routed edge of the component, in routing order, in
+	// SIXTHS of a unit (the rectangles beside helper nodes are narrowed by thirds): rectangles l, t, r, b; start x, y; end x, y
+	cors   [][]int
+	corsOK bool // every coordinate is an exact multiple of 1/6
 }
 
 var (
@@ -114,6 +119,27 @@ func installStageHook() {
 			s.layerH = append(s.layerH, qq(l.H))
 		}
 		s.exact = e.exact && e.finite
+		if stage == 5 && curRec != nil && len(curRec.cors) > 0 {
+			s.corsOK = true
+			six := func(v float64) int {
+				w := ldexp(v, -stageScale) * 6
+				r := math.Round(w)
+				if r != w || math.IsInf(w, 0) || math.IsNaN(w) || math.Abs(w) > 1e9 {
+					s.corsOK = false
+					return 0
+				}
+				return int(r)
+			}
+			for _, c := range curRec.cors {
+				row := []int{len(c.rects)}
+				for _, r := range c.rects {
+					row = append(row, six(r[0]), six(r[1]), six(r[2]), six(r[3]))
+				}
+				row = append(row, six(c.s[0]), six(c.s[1]), six(c.e[0]), six(c.e[1]))
+				s.cors = append(s.cors, row)
+			}
+			curRec.cors = curRec.cors[:0]
+		}
 		stageSnaps = append(stageSnaps, s)
 	}
 }
@@ -170,7 +196,20 @@ func (e *enc) stages(c *Case) {
 			}
 			e.ints(l)
 		}
-		e.s(`],"lh":`)
+		e.s(`],"cors":[`)
+		for k, l := range s.cors {
+			if k > 0 {
+				e.s(",")
+			}
+			e.ints(l)
+		}
+		e.s(`],"corsok":`)
+		if s.corsOK {
+			e.s("1")
+		} else {
+			e.s("0")
+		}
+		e.s(`,"lh":`)
 		e.ints(s.layerH)
 		e.s(`,"exact":`)
 		if s.exact {
